@@ -187,6 +187,19 @@ def chk_rebin(case, acc, seed):
         acc.violation(f'rebin:{"cube" if depth else "2d"}:value', case, 'rebin is not the block sum')
     if abs(got.sum() - a.sum()) > 1e-10:
         acc.violation('rebin:sum', case, 'rebin does not preserve the sum')
+    # a shape that is not a whole number of bins: refused, or -- whatever is returned -- the sum is preserved
+    if f > 1:
+        for extra in ((1, 0), (0, 1), (f - 1, 1)):
+            b = rm.generic_real((shape[0] + extra[0], shape[1] + extra[1]) if depth == 0 else (depth, shape[0] + extra[0], shape[1] + extra[1]), seed, tag=6, lo=0.5, hi=4)
+            b[..., -1, :] += 5
+            b[..., :, -1] += 7
+            try:
+                gb = np.asarray(lentil.rebin(b, f))
+            except Exception:
+                acc.cls('rebin:non-divisible-refused')
+                continue
+            if abs(gb.sum() - b.sum()) > 1e-9:
+                acc.violation('rebin:non-divisible:sum', dict(case, shape=list(b.shape)), f'rebin of a {b.shape} array by {f} returns a sum of {gb.sum()} for an input sum of {b.sum()}')
     acc.cls('rebin')
     acc.case(case, outcome='rebin')
 
@@ -336,7 +349,26 @@ def chk_hex_history(case, acc, seed):
     acc.case(case, outcome='hex-history')
 
 
-DISPATCH = {'hexhist': chk_hex_history, 'pad': chk_pad, 'stencil': chk_stencil, 'subarray': chk_subarray, 'rebin': chk_rebin, 'shape': chk_shape, 'hex': chk_hex}
+def chk_big_circle(case, acc, seed):
+    """discs larger than the array: a shifted one is still the disc about the shifted centre"""
+    import lentil
+    shape, r, sh = tuple(case['shape']), case['radius'], tuple(case['shift'])
+    rr, cc = np.indices(shape)
+    d = np.hypot(rr - (shape[0] // 2 + sh[0]), cc - (shape[1] // 2 + sh[1]))
+    for aa in (True, False):
+        try:
+            m = np.asarray(lentil.circle(shape, r, shift=sh, antialias=aa), float)
+        except Exception as e:
+            acc.violation(f'shape:circle:large:raises:{type(e).__name__}', dict(case, antialias=aa), repr(e))
+            continue
+        if np.any(m[d > r + 1] != 0) or np.any(m[d < r - 1] != 1):
+            acc.violation('shape:circle:large-radius-shifted', dict(case, antialias=aa),
+                          f'circle({shape}, {r}, shift={sh}): {int((m[d > r + 1] != 0).sum())} samples more than a pixel outside the disc are lit, {int((m[d < r - 1] != 1).sum())} inside are not')
+    acc.cls('circle:large')
+    acc.case(case, outcome='big-circle')
+
+
+DISPATCH = {'bigcircle': chk_big_circle, 'hexhist': chk_hex_history, 'pad': chk_pad, 'stencil': chk_stencil, 'subarray': chk_subarray, 'rebin': chk_rebin, 'shape': chk_shape, 'hex': chk_hex}
 
 
 DISPATCH['histop'] = histories.chk_case
@@ -369,6 +401,11 @@ def t_misc(arg, acc):
         for tiles in ((1, 1), (2, 3), (3, 2)):
             for depth in (0, 1, 3):
                 chk_rebin({'kind': 'rebin', 'factor': f, 'tiles': tiles, 'depth': depth}, acc, seed)
+    for shp in ((16, 12), (15, 15), (12, 17)):
+        half = math.hypot(*shp) / 2
+        for r in (half - 1, half + 0.75, half + 3, 2 * half):
+            for sh in ((0, 0), (7, 5), (-6, 0), (0, 8), (3, -7)):
+                chk_big_circle({'kind': 'bigcircle', 'shape': shp, 'radius': r, 'shift': sh}, acc, seed)
     shapes = [(16, 16), (17, 17), (16, 19), (21, 18)]
     params = {'circle': [3, 4.5, 5.25], 'hexagon': [4.25, 5.5], 'hexagon-rot': [4.25, 5.5], 'rectangle': [(6, 4), (5, 7), (4.5, 3.25)],
               'rectangle-30': [(6, 4), (5, 3)]}
@@ -436,7 +473,7 @@ def run(tier, seed, acc, procs=None):
         'bounds': {'pad_max': nmax, 'stencil_array': st_shape, 'hex_rings': [1, 2, 3], 'hex_gaps': [0, 0.5, 1, 2.5]},
         'assumptions': ['hexagon radii are chosen so that no pixel centre lies exactly on a vertex (a floating-point tie)', 'segment area tolerance 6R*0.75+2 pixels (edge sampling of a hexagon of perimeter 6R)'],
         'require': {'pad:2d': 30, 'pad:cube': 90, 'stencil': 10, 'subarray': 4, 'rebin': 30, 'shape:circle': 20, 'shape:hexagon': 10,
-                    'shape:rectangle-30': 10, 'hex:rings=1': 50, 'hex:rings=3': 50, 'hex:gap=0': 50, 'centroid:signed': 100, 'hex-history': 12},
+                    'shape:rectangle-30': 10, 'hex:rings=1': 50, 'hex:rings=3': 50, 'hex:gap=0': 50, 'centroid:signed': 100, 'hex-history': 12, 'circle:large': 40},
     }
 
 
